@@ -2,6 +2,8 @@ package main
 
 import (
 	"fmt"
+	"go/token"
+	"go/types"
 	"sort"
 	"strings"
 
@@ -20,6 +22,9 @@ type c09fn struct {
 	regs []caseRegion
 	acc  []access
 	name string
+	// struct-typed temporaries that hold one value (see structTemps): the rules read
+	// a field selected on such a temporary as the field of the value it holds
+	temps map[*ssa.Alloc]ssa.Value
 }
 
 func (c *c09fn) head(label string) *ssa.BasicBlock {
@@ -81,7 +86,7 @@ func newC09fn(r *Run, name string, vparam int, post map[string]postSummary) *c09
 	if fn == nil {
 		return nil
 	}
-	c := &c09fn{fn: fn, e: newWEng(r, fn, post), name: short(name)}
+	c := &c09fn{fn: fn, e: newWEng(r, fn, post), name: short(name), temps: structTemps(fn)}
 	// preconditions are declared before any value is normalised (conversions are memoised)
 	for _, p := range fn.Params {
 		if strings.HasSuffix(p.Type().String(), "tls.fieldInfo") {
@@ -514,7 +519,7 @@ func c09Gate(r *Run, c *c09fn, key, calleeGlob string, min int) {
 			continue
 		}
 		ev := CallResult(call, call.Call.Signature().Results().Len()-1)
-		k := c.key(call, strings.TrimPrefix(key, c.name+":")+"["+keySafe(r.D.D(CallArgs(call)[1]))+"]")
+		k := c.key(call, strings.TrimPrefix(key, c.name+":")+"["+keySafe(c.D(CallArgs(call)[1]))+"]")
 		if ev == nil {
 			r.Fail(k, r.Where(call), "the error result of "+CalleeOf(call)+" is discarded")
 			continue
@@ -566,4 +571,243 @@ func anyDominated(ms []ssa.Instruction, b *ssa.BasicBlock) bool {
 		}
 	}
 	return false
+}
+
+// ---- values held in struct temporaries ------------------------------------------------------
+//
+// `sf := t.Field(i); … sf.Tag … sf.Name` — go/ssa does not lift a struct local whose fields
+// are selected to a register: it stays an Alloc that is stored as a whole and read through
+// FieldAddr + load, so the origin term of sf.Name is "new:reflect.StructField#0.Name" where
+// the direct form t.Field(i).Name renders "iface(reflect.Type).Field(…).Name".  Both denote
+// field Name of the value returned by that call.  structTemps finds the allocs for which this
+// reading is exact:
+//   - the alloc has struct type and exactly one store, of a whole value V (not of the alloc itself);
+//   - every other use is a whole load, or a FieldAddr (chain) that is only loaded from: the address
+//     never escapes and no field is written separately;
+//   - the store dominates every load (same block: precedes it).
+//
+// V's definition dominates the store (SSA), the store dominates the load and is the only writer,
+// so on every path the last execution of V's definition is followed by the store before the load
+// (also when all three sit in a loop body): the load yields the current V.  No purity of the
+// callee producing V is needed — the temporary form evaluates it once.
+func structTemps(fn *ssa.Function) map[*ssa.Alloc]ssa.Value {
+	out := map[*ssa.Alloc]ssa.Value{}
+	eachInstr(fn, func(in ssa.Instruction) {
+		al, ok := in.(*ssa.Alloc)
+		if !ok {
+			return
+		}
+		if _, isStruct := al.Type().(*types.Pointer).Elem().Underlying().(*types.Struct); !isStruct {
+			return
+		}
+		var st *ssa.Store
+		var loads []ssa.Instruction
+		okAll := true
+		var readOnly func(addr ssa.Value)
+		readOnly = func(addr ssa.Value) {
+			for _, ref := range *addr.Referrers() {
+				switch x := ref.(type) {
+				case *ssa.DebugRef:
+				case *ssa.UnOp:
+					if x.Op != token.MUL {
+						okAll = false
+					}
+					loads = append(loads, x)
+				case *ssa.FieldAddr:
+					readOnly(x)
+				case *ssa.Store:
+					if addr != ssa.Value(al) || x.Addr != addr || x.Val == addr || st != nil {
+						okAll = false // a field written separately, the address stored away, or a second store
+					}
+					st = x
+				default:
+					okAll = false
+				}
+			}
+		}
+		readOnly(al)
+		if !okAll || st == nil {
+			return
+		}
+		for _, ld := range loads {
+			if !(st.Block() == ld.Block() && instrIndex(st) < instrIndex(ld) || st.Block() != ld.Block() && st.Block().Dominates(ld.Block())) {
+				return
+			}
+		}
+		out[al] = st.Val
+	})
+	return out
+}
+
+// norm rewrites an origin term so that a struct temporary reads as the value it holds:
+// "new:T#n.f" and "*new:T#n" become "<origin of V>.f" and "<origin of V>".
+func (c *c09fn) norm(s string) string {
+	if len(c.temps) == 0 || !strings.Contains(s, "new:") {
+		return s
+	}
+	d := c.e.r.D
+	for round := 0; round < 4; round++ { // a temporary may hold a field of another one
+		changed := false
+		for al, v := range c.temps {
+			name := d.allocName(al)
+			if !strings.Contains(s, name) {
+				continue
+			}
+			val := d.D(v)
+			if strings.Contains(val, name) || strings.HasPrefix(val, "&(") || strings.HasPrefix(val, "*") {
+				continue // not a plain value term: leave the temporary visible (patterns then do not match: undecided)
+			}
+			var sb strings.Builder
+			for i := 0; i < len(s); {
+				j := strings.Index(s[i:], name)
+				if j < 0 {
+					sb.WriteString(s[i:])
+					break
+				}
+				j += i
+				end := j + len(name)
+				if end < len(s) && s[end] >= '0' && s[end] <= '9' { // "#1" inside "#10"
+					sb.WriteString(s[i:end])
+					i = end
+					continue
+				}
+				pre := s[i:j]
+				pre = strings.TrimSuffix(pre, "*") // whole load of the temporary
+				sb.WriteString(pre)
+				sb.WriteString(val)
+				i = end
+				changed = true
+			}
+			s = sb.String()
+		}
+		if !changed {
+			break
+		}
+	}
+	return s
+}
+
+// D is the origin term of v with struct temporaries read through.
+func (c *c09fn) D(v ssa.Value) string { return c.norm(c.e.r.D.D(v)) }
+
+// expectArg is Run.ExpectArg on terms with struct temporaries read through.
+func (c *c09fn) expectArg(ci ssa.CallInstruction, key string, i int, valGlob string) bool {
+	r := c.e.r
+	args := CallArgs(ci)
+	if i >= len(args) {
+		r.Fail(key, r.Where(ci), fmt.Sprintf("call %s has no argument %d", CalleeOf(ci), i))
+		return false
+	}
+	got := c.D(args[i])
+	return r.Check(key, anyGlob(valGlob, got), r.Where(ci), fmt.Sprintf("arg %d of %s = %s (expected %s)", i, CalleeOf(ci), got, valGlob))
+}
+
+// blocksTesting is Run.blocksTesting with the atom's key and operands read through struct temporaries.
+func (c *c09fn) blocksTesting(match func(ci *CondInfo) bool) []*ssa.BasicBlock {
+	return c.e.r.blocksTesting(c.fn, func(ci *CondInfo) bool {
+		n := *ci
+		n.Key, n.A, n.B = c.norm(ci.Key), c.norm(ci.A), c.norm(ci.B)
+		return match(&n)
+	})
+}
+
+// table is Describer.Table with the rule atoms bound by glob to the atom keys (operands) as they
+// read through struct temporaries; the valuation handed to the walk is over the actual keys.
+func (c *c09fn) table(from *ssa.BasicBlock, stop map[*ssa.BasicBlock]bool, atoms []RuleAtom,
+	visit func(val map[string]string, r *Reach, s Sigma)) error {
+	d, fn := c.e.r.D, c.fn
+	found := d.AtomsOf(fn)
+	keys := keysOf(found)
+	bound := map[string][]string{}
+	doms := make([][]string, len(atoms))
+	flipped := map[string]bool{}
+	for i, a := range atoms {
+		kind := ""
+		for _, k := range keys {
+			ci := found[k]
+			m := false
+			if a.OrdA != "" {
+				if ci.Kind == "ord" {
+					na, nb := c.norm(ci.A), c.norm(ci.B)
+					if glob(a.OrdA, na) && glob(a.OrdB, nb) {
+						m = true
+					} else if glob(a.OrdA, nb) && glob(a.OrdB, na) {
+						m = true
+						flipped[k] = true
+					}
+				}
+			} else {
+				m = glob(a.Pat, c.norm(k))
+			}
+			if m {
+				bound[a.Name] = append(bound[a.Name], k)
+				if kind != "" && kind != ci.Kind {
+					return fmt.Errorf("atom %s binds keys of different kinds", a.Name)
+				}
+				kind = ci.Kind
+			}
+		}
+		if len(bound[a.Name]) == 0 {
+			return fmt.Errorf("atom %s: no branch condition of %s matches %q", a.Name, FuncName(fn), a.Pat+a.OrdA+" ~ "+a.OrdB)
+		}
+		doms[i] = domains[kind]
+		if kind == "ord" {
+			var keep []string
+			for _, v := range doms[i] {
+				ok := false
+				for _, k := range bound[a.Name] {
+					vv := v
+					if flipped[k] {
+						vv = map[string]string{"<": ">", ">": "<", "=": "="}[v]
+					}
+					if !d.infeasible(found, k, vv) {
+						ok = true
+					}
+				}
+				if ok {
+					keep = append(keep, v)
+				}
+			}
+			doms[i] = keep
+		}
+		if len(a.Dom) > 0 {
+			doms[i] = a.Dom
+		}
+	}
+	idx := make([]int, len(atoms))
+	for {
+		val := map[string]string{}
+		s := Sigma{}
+		for i, a := range atoms {
+			v := doms[i][idx[i]]
+			val[a.Name] = v
+			if v == "?" {
+				continue
+			}
+			for _, k := range bound[a.Name] {
+				if flipped[k] {
+					v2 := map[string]string{"<": ">", ">": "<"}[v]
+					if v2 == "" {
+						v2 = v
+					}
+					s[k] = v2
+				} else {
+					s[k] = v
+				}
+			}
+		}
+		visit(val, d.Walk(fn, s, from, stop), s)
+		i := 0
+		for ; i < len(idx); i++ {
+			idx[i]++
+			if idx[i] < len(doms[i]) {
+				break
+			}
+			idx[i] = 0
+		}
+		if i == len(idx) {
+			break
+		}
+	}
+	return nil
 }
